@@ -418,7 +418,7 @@ func astNodeToSchemaRule(node schema.RuleASTNode) Rule {
 	return Rule{
 		TokenType:   RuleTokenType(node.TokenType),
 		ScalarValue: node.Value,
-		Note:        node.Comment,
+		Note:        lineEndsToLF(node.Comment),
 		Children:    children,
 	}
 }
